@@ -933,10 +933,8 @@ def process_commandline(out: OutputBuffer, args: List[str]) -> 'AuditConf':  # p
         sys.exit(exitcodes.GOOD)
 
     if aconf.client_audit is False and aconf.target_file is None:
-        if oport is not None:
-            host = argument.host
-        else:
-            host, port = Utils.parse_host_and_port(argument.host)
+        # The -p/--port option is only the default: a port written with the host ("host:port", "[IPv6]:port") wins, as in a targets file.
+        host, port = Utils.parse_host_and_port(argument.host, default_port=22 if oport is None else oport)
 
         if not host and aconf.target_file is None:
             out.fail("target host is not specified", write_now=True)
@@ -946,10 +944,11 @@ def process_commandline(out: OutputBuffer, args: List[str]) -> 'AuditConf':  # p
         port = 2222
 
     if oport is not None:
-        port = Utils.parse_int(oport)
-        if port < 1 or port > 65535:
+        if oport < 1 or oport > 65535:
             out.fail("port must be greater than 0 and less than 65535: {}".format(oport), write_now=True)
             sys.exit(exitcodes.UNKNOWN_ERROR)
+        if aconf.client_audit or aconf.target_file is not None:
+            port = oport
 
     aconf.host = host
     aconf.port = port
